@@ -3,6 +3,7 @@ package cachesim
 import (
 	"math"
 	"math/rand/v2"
+	"strings"
 
 	"verifsim/core"
 )
@@ -302,9 +303,25 @@ func init() {
 
 // GenPlan draws a complete plan for one run of a profile.
 func GenPlan(profName string, seed uint64) *Plan {
-	pr := profiles[profName]
+	// "<profile>+deep" (thorough tier): the same generator with deeper bounds -
+	// programs up to four times as long, twice the key space, more clients - so
+	// that states which need a long history (ageing resets of the sketch, many
+	// resident keys, long buffered queues) are reached too
+	base, deep := strings.CutSuffix(profName, "+deep")
+	pr := profiles[base]
 	if pr == nil {
 		panic("unknown profile " + profName)
+	}
+	if deep {
+		cp := *pr
+		cp.opsLo *= 2
+		cp.opsHi *= 4
+		cp.keysHi = min(cp.keysHi*2, 32)
+		if cp.clientsHi > 1 {
+			cp.clientsHi = min(cp.clientsHi+2, 8)
+		}
+		cp.maxSteps = 200000
+		pr = &cp
 	}
 	g := gen{core.NewRand(seed, 1)}
 	p := &Plan{Profile: profName, Seed: seed}
